@@ -299,6 +299,11 @@ func (x *Exec) callFunc(fn *types.Func, recv Value, args []Value, st *State, e *
 	}
 	fc := x.prog.Contracts.Funcs[key]
 	fi := x.prog.FuncsByObj[fn]
+	if fc != nil && fc.Opts["callback"] != "" {
+		if v, ok := x.callbackCall(fc, key, sig, args, st, pos); ok {
+			return v
+		}
+	}
 	if fc != nil && fc.Opts["inline"] == "" {
 		return x.callContract(fc, fi, sig, recv, args, st, pos, key, e)
 	}
@@ -306,6 +311,88 @@ func (x *Exec) callFunc(fn *types.Func, recv Value, args []Value, st *State, e *
 		return x.inlineBody(fi, sig, fi.Decl.Body, recv, args, st, key, nil)
 	}
 	return x.unknownCall(full, sig, args, st)
+}
+
+// callbackCall models an external function that invokes its function argument any number of times, sequentially and
+// on the calling goroutine, with arguments the caller does not control (trusted contract: `opt callback = <param>`).
+// The invocations are treated like the iterations of a loop: the caller's `callback <callee>: inv` clauses must hold
+// before the call and after every invocation; what the closure may write is found by a dry run and havoc'd.
+func (x *Exec) callbackCall(fc *FuncContract, key string, sig *types.Signature, args []Value, st *State, pos token.Pos) (Value, bool) {
+	idx := -1
+	for i := 0; i < sig.Params().Len(); i++ {
+		name := sig.Params().At(i).Name()
+		if i < len(fc.ParamNames) {
+			name = fc.ParamNames[i]
+		}
+		if name == fc.Opts["callback"] {
+			idx = i
+		}
+	}
+	if idx < 0 || idx >= len(args) {
+		return nil, false
+	}
+	cl, ok := args[idx].(ClosureV)
+	if !ok {
+		return nil, false
+	}
+	csig := x.info.TypeOf(cl.Lit).(*types.Signature)
+	var invs []*Clause
+	if x.topC != nil {
+		for _, ca := range x.topC.CallbackInvs {
+			if ca.Callee == key && !x.clauseModeOff(ca.Clause) {
+				invs = append(invs, ca.Clause)
+			}
+		}
+	}
+	check := func(s *State, kind string) {
+		if s.dead {
+			return
+		}
+		env := x.frameEnv(s)
+		for _, inv := range invs {
+			x.curLabel = inv.Label
+			for _, g := range x.specConjuncts(inv.Expr, env) {
+				x.assert(s, kind, "callback of "+key+": "+g.label(inv.Label), g.t, inv.Tags, pos)
+			}
+		}
+	}
+	assumeInvs := func(s *State) {
+		env := x.frameEnv(s)
+		for _, inv := range invs {
+			x.assume(s, x.specTerm(inv.Expr, env))
+		}
+	}
+	invoke := func(s *State) {
+		var cargs []Value
+		for i := 0; i < csig.Params().Len(); i++ {
+			cargs = append(cargs, x.freshTyped(csig.Params().At(i).Type(), "cbarg", s))
+		}
+		x.cbDepth++
+		x.inlineBody(nil, csig, cl.Lit.Body, nil, cargs, s, "callback", cl.Lit)
+		x.cbDepth--
+	}
+	x.interfere(st)
+	check(st, "cb-init")
+	mv, mh := x.dryRun(st, func(s0 *State) []*State {
+		invoke(s0)
+		return []*State{s0}
+	})
+	for o := range mv {
+		x.havocVar(st, o)
+	}
+	for k := range mh {
+		x.havocHeap(st, k)
+	}
+	assumeInvs(st)
+	more := x.vc.fresh("more", sortBool)
+	sb := st.clone()
+	x.addPC(sb, more)
+	invoke(sb)
+	check(sb, "cb-keep")
+	// the state after the call is the state at the head of some iteration (the invariant holds, whatever the
+	// closure may write has an arbitrary value consistent with it)
+	x.abstractions["call to "+key+": modelled as any number of sequential invocations of its function argument (trusted)"] = true
+	return x.freshResults(sig, key+".res", st), true
 }
 
 // clauseModeOff: the clause has the form `<mode name> ==> ...` for a mode that is not the one under verification.
